@@ -291,6 +291,34 @@ pub fn entry<T: ZooVal + Serialize + Deserialize + Packed + WithSchema + Introsp
     }
 }
 
+/// container variants of zoo types: no stream-level suites
+pub fn entry_c<T: ZooVal + Serialize + Deserialize + Packed + WithSchema + Introspect + 'static>(
+    name: &str,
+    versions: &[u32],
+    family: Option<(&str, u32)>,
+    tags: &[&'static str],
+) -> Entry {
+    Entry {
+        name: name.to_string(),
+        versions: versions.to_vec(),
+        family: family.map(|(f, v)| (f.to_string(), v)),
+        tags: tags.to_vec(),
+        defs: T::defs,
+        ty_sx: T::ty_sx,
+        gen_enc: gen_enc_impl::<T>,
+        dec: bare_dec::<T>,
+        packed: |v| unsafe { T::repr_c_optimization_safe(v).is_yes() },
+        mem: || (std::mem::size_of::<T>(), std::mem::align_of::<T>()),
+        gen_save: gen_save_impl::<T>,
+        load: load_container::<T>,
+        schema_bytes: schema_bytes::<T>,
+        bulk: bulk_check::<T>,
+        intro: intro_impl::<T>,
+        iofault: |_, _, _, _, _, _| Vec::new(),
+        encfile: |_, _, _, _, _, _| Vec::new(),
+    }
+}
+
 /// for the few types that do not implement `Introspect` (`Cell`)
 pub fn entry_ni<T: ZooVal + Serialize + Deserialize + Packed + WithSchema + 'static>(
     name: &str,
